@@ -26,8 +26,11 @@ RULE = ("cases are drawn from random.Random(VERIF_SEED).  hosvd: dense data of o
         "every mode order for N <= 3; rank / order arguments as list, tuple, ndarray.  tucker_als: order 2..3 "
         "(4 in thorough; order 1 only in the reject stream: `ttm` of a list with no mode left raises), rank as int / "
         "1-list / list / tuple / ndarray, the three initialisations (random under seeds, 'nvecs' / 'NVECS' / 'eigs', "
-        "given list), every mode order, iteration limits 1..6, stop tolerances 1e-2, 1e-4, 0, -1.  A separate "
-        "malformed stream (wrong-length ranks, non-permutation orders, maxiters 0 / -1, unknown init, wrong init "
+        "given list), every mode order, iteration limits 1..6, stop tolerances 1e-2, 1e-4, 0, -1.  A "
+        "stream of integer-valued data handed over as float64 / int64 / int32 / int16 / uint8 (magnitudes whose squares "
+        "overflow the integer types): same ranks, same Tucker tensor, same error bound as for float64.  A separate "
+        "malformed stream (ranks above the extent of their mode, negative ranks, rank 0 for tucker_als — all of which "
+        "must be rejected —, wrong-length ranks, non-permutation orders, maxiters 0 / -1, unknown init, wrong init "
         "shapes, short rank vectors, 1-way data for tucker_als).  A case is non-trivial when the implementation "
         "accepted it and the data is not constant; distinct = distinct case hash")
 ASSUMPTIONS = [
@@ -163,8 +166,9 @@ class _Attr:
         return getattr(object.__getattribute__(self, "_base"), name)
 
 
-def run_hosvd(A, tol, dimorder, sequential, ranks):
-    """hosvd with `scipy.linalg.eigh` recorded in the namespace of pyttb.hosvd"""
+def run_hosvd(A, tol, dimorder, sequential, ranks, dtype=None):
+    """hosvd with `scipy.linalg.eigh` recorded in the namespace of pyttb.hosvd; `dtype`: the element type the
+    (integer-valued) data is handed over in"""
     H = importlib.import_module("pyttb.hosvd")
     rec = []
     orig = H.scipy
@@ -176,10 +180,11 @@ def run_hosvd(A, tol, dimorder, sequential, ranks):
 
     H.scipy = _Attr(orig, linalg=_Attr(orig.linalg, eigh=eigh))
     try:
-        X = mk_tensor(A)
+        X = mk_tensor(A) if dtype is None else ttb.tensor(np.array(A, dtype=dtype, order="F"), shape=tuple(A.shape))
+        dt_before = X.data.dtype
         T = H.hosvd(X, tol, verbosity=0, dimorder=dimorder, sequential=sequential, ranks=ranks)
         return {"core": np.array(T.core.data, copy=True), "factors": [np.array(f, copy=True) for f in T.factor_matrices],
-                "X_after": np.array(X.data, copy=True)}, rec
+                "X_after": np.array(X.data, copy=True), "dtype_kept": X.data.dtype == dt_before}, rec
     finally:
         H.scipy = orig
 
@@ -636,6 +641,9 @@ class HosvdTrace(Family):
             if not m.get("reject"):
                 return V("corr", "implementation rejects, model accepts", impl, m, None, tags, False)
             return V("ok", "", impl, None, None, tags, False)
+        if c.get("must_reject"):
+            return V("violation", f"hosvd accepted the rank vector {c['ranks']} for shape {c['shape']} "
+                                  "(a rank must lie between 0 and the extent of its mode)", None, m, None, tags)
         res = impl["ok"]
         Us, G = res["factors"], res["core"]
         scale = max(1.0, float(np.abs(A).max()))
@@ -734,6 +742,106 @@ class HosvdTrace(Family):
             yield {**c, "data": [float(round(v * 4) / 4) for v in c["data"]]}
 
 
+DTYPE_CLASSES = [
+    # (largest magnitude, signed, element types that hold the values; the squares overflow all integer types listed
+    #  last in each class)
+    (255, False, ["float64", "int64", "int32", "int16", "uint8"]),
+    (30000, True, ["float64", "int64", "int32", "int16"]),
+    (2000000, True, ["float64", "int64", "int32"]),
+    (4000000000, True, ["float64", "int64"]),
+]
+
+
+class HosvdDtype(HosvdTrace):
+    """The same integer-valued numbers handed over as float64 / int64 / int32 / int16 / uint8 data: the float64
+    run is judged like every other hosvd case (model replay included); every other element type must give
+    the same ranks, the same reconstruction and the error bound (the sum of squares must not wrap around:
+    2517f75)."""
+
+    name = "hosvd_dtype"
+    theorems = ("C10_hosvd_rank_auto", "C10_hosvd_error_bound")
+
+    def gen(self, rng, tier):
+        out = []
+        for i in range(16 if tier == "quick" else 120):
+            big, signed, dts = DTYPE_CLASSES[i % len(DTYPE_CLASSES)]
+            N = rng.randint(1, 3)
+            shape = [rng.randint(1, 4) for _ in range(N)]
+            if rng.random() < 0.6:
+                shape = rng.sample(range(1, 5), N)
+            n = gen.numel(shape)
+            how = rng.choice(["large", "large", "mixed", "diag"])
+            vals = []
+            for j in range(n):
+                m = big if how == "large" or (how == "mixed" and rng.random() < 0.5) else max(1, big // 50)
+                v = rng.randint(m // 2, m)
+                if rng.random() < 0.25:
+                    v = rng.randint(0, max(1, m // 100))
+                vals.append(float(-v if signed and rng.random() < 0.5 else v))
+            if how == "diag":
+                A = np.zeros(shape)
+                for j in range(min(shape)):
+                    A[(j,) * N] = float(rng.randint(big // 3, big)) / (j + 1) // 1
+                vals = flist(A)
+            if not any(vals):
+                vals[0] = float(big)   # the property speaks about non-zero data
+            order = rng.choice([None] + [list(p) for p in itertools.permutations(range(N))])
+            out.append({"kind": "dtype", "shape": shape, "data": vals, "tol": rng.choice([0.1, 0.3, 0.5, 0.7, 0.9]),
+                        "sequential": rng.random() < 0.5, "dimorder": order, "dimorder_conv": "list",
+                        "ranks": None, "ranks_conv": "list", "dtypes": dts, "class": f"max{big}"})
+        return out
+
+    def evaluate(self, cases):
+        base = super().evaluate(cases)
+        out = []
+        for c, v in zip(cases, base):
+            if v.status != "ok":
+                out.append(v)
+                continue
+            A = to_array(c["shape"], c["data"])
+            normx = float(np.sqrt((A ** 2).sum()))
+            scale = max(1.0, float(np.abs(A).max())) * max(1.0, normx)
+            ref, _ = run_hosvd(A, c["tol"], c["dimorder"], c["sequential"], None, dtype="float64")
+            ref_shape = [list(u.shape) for u in ref["factors"]]
+            ref_full_ = ref_full(ref["core"], ref["factors"])
+            tags = list(v.tags) + [c["class"]]
+            bad = None
+            for dt in c["dtypes"][1:]:
+                r = call(lambda: run_hosvd(A, c["tol"], c["dimorder"], c["sequential"], None, dtype=dt)[0])
+                if r.get("reject"):
+                    bad = V("violation", f"hosvd raised {r.get('exc')} on {dt} data: {r.get('msg')}", r, None, None, tags)
+                    break
+                res = r["ok"]
+                shp = [list(u.shape) for u in res["factors"]]
+                summ = {"dtype": dt, "factor_shapes": shp, "float64_factor_shapes": ref_shape}
+                if shp != ref_shape:
+                    bad = V("violation", f"the same numbers as {dt} data give ranks {[x[1] for x in shp]}, as float64 data "
+                                         f"{[x[1] for x in ref_shape]}", summ, None, ref_shape, tags)
+                    break
+                full = ref_full(np.asarray(res["core"], dtype=float), res["factors"])
+                relerr = float(np.sqrt(((A - full) ** 2).sum())) / normx if normx > 0 else 0.0
+                summ["relerr"] = relerr
+                if normx > 0 and relerr > c["tol"] + 1e-8:
+                    bad = V("violation", f"{dt} data: relative error {relerr} exceeds the tolerance {c['tol']}", summ, None, None, tags)
+                    break
+                if not near(full, ref_full_, 1e-8, scale):
+                    bad = V("violation", f"the same numbers as {dt} data give a different Tucker tensor than as float64 data",
+                            summ, None, None, tags)
+                    break
+                if not res["dtype_kept"] or not np.array_equal(np.asarray(res["X_after"], dtype=float), A):
+                    bad = V("violation", f"hosvd modified its {dt} data tensor", summ, None, None, tags)
+                    break
+            out.append(bad if bad is not None else Verdict("ok", "", v.impl, None, None, tuple(tags), v.nontrivial))
+        return out
+
+    def shrink(self, case):
+        for dt in case["dtypes"][1:]:
+            if len(case["dtypes"]) > 2:
+                yield {**case, "dtypes": ["float64", dt]}
+        if case.get("dimorder") is not None:
+            yield {**case, "dimorder": None}
+
+
 class HosvdMalformed(HosvdTrace):
     name = "hosvd_malformed"
     theorems = ()
@@ -747,8 +855,15 @@ class HosvdMalformed(HosvdTrace):
             X = [rng.gauss(0, 1) for _ in range(gen.numel(shape))]
             c = {"kind": "malformed", "shape": shape, "data": X, "tol": 0.3, "sequential": rng.random() < 0.5,
                  "dimorder": None, "dimorder_conv": "list", "ranks": None, "ranks_conv": "list", "expect_reject": True}
-            what = rng.choice(["ranks-short", "ranks-long", "order-dup", "order-range", "order-short"])
-            if what == "ranks-short":
+            what = rng.choice(["ranks-short", "ranks-long", "order-dup", "order-range", "order-short",
+                               "ranks-over", "ranks-over", "ranks-neg"])
+            if what in ("ranks-over", "ranks-neg"):
+                # rejected since b0b6c00: a rank above the extent of its mode, a negative rank
+                rk = [rng.choice([0, rng.randint(1, x)]) for x in shape]
+                k = rng.randrange(N)
+                rk[k] = shape[k] + rng.choice([1, 1, 3]) if what == "ranks-over" else -rng.randint(1, 2)
+                c.update({"ranks": rk, "ranks_conv": rng.choice(["list", "tuple", "ndarray"]), "must_reject": True})
+            elif what == "ranks-short":
                 c["ranks"] = [1] * (N - 1)
                 if N == 1:
                     c["ranks"] = [1, 1]
@@ -991,6 +1106,9 @@ class TuckerTrace(Family):
             if not m.get("reject"):
                 return V("corr", "implementation rejects, model accepts", impl, m, None, tags, False)
             return V("ok", "", impl, None, None, tags, False)
+        if c.get("must_reject"):
+            return V("violation", f"tucker_als accepted the rank {c['rank']} for shape {c['shape']} "
+                                  "(a rank must lie between 1 and the extent of its mode)", None, m, None, tags)
         r = self.spec_check(c, run, tags)
         if isinstance(r, Verdict):
             return r
@@ -1049,7 +1167,8 @@ class TuckerMalformed(TuckerTrace):
         out = []
         for _ in range(24 if tier == "quick" else 160):
             what = rng.choice(["maxiters0", "maxiters-1", "order-dup", "order-range", "init-unknown", "init-len",
-                               "init-shape", "init-shape-first", "rank-short", "rank-long", "oneway"])
+                               "init-shape", "init-shape-first", "rank-short", "rank-long", "oneway",
+                               "rank-zero", "rank-neg", "rank-over", "rank-over"])
             c = self.problem(rng, tier, nmin=2)
             N = len(c["shape"])
             c.update({"kind": "malformed", "what": what, "expect_reject": True})
@@ -1058,7 +1177,21 @@ class TuckerMalformed(TuckerTrace):
 
             def mk_list(shapes):
                 return [[[rng.uniform(0, 1) for _ in range(p)] for _ in range(mm)] for (mm, p) in shapes]
-            if what == "maxiters0":
+            if what in ("rank-zero", "rank-neg", "rank-over"):
+                # rejected since 35fe719: a rank below one or above the extent of its mode
+                bad = {"rank-zero": 0, "rank-neg": -rng.randint(1, 2)}.get(what)
+                if rng.random() < 0.3:
+                    r = bad if bad is not None else min(c["shape"]) + 1
+                    c["rank"], c["rank_conv"] = [r], rng.choice(["int", "list"])
+                else:
+                    rk = list(full)
+                    k = rng.randrange(N)
+                    rk[k] = bad if bad is not None else c["shape"][k] + rng.choice([1, 2])
+                    c["rank"], c["rank_conv"] = rk, rng.choice(["list", "tuple", "ndarray"])
+                if c["init"] == "list":
+                    c["init"] = rng.choice(["random", "nvecs"])
+                c["must_reject"] = True
+            elif what == "maxiters0":
                 c["maxiters"] = 0
             elif what == "maxiters-1":
                 c["maxiters"] = -1
@@ -1208,4 +1341,4 @@ class TuckerMonotone(TuckerTrace):
 
 
 def families():
-    return [Formulas(), DenseOps(), HosvdTrace(), HosvdMalformed(), TuckerTrace(), TuckerMalformed(), TuckerMonotone()]
+    return [Formulas(), DenseOps(), HosvdTrace(), HosvdDtype(), HosvdMalformed(), TuckerTrace(), TuckerMalformed(), TuckerMonotone()]
